@@ -6,19 +6,22 @@ Local Open Scope N_scope.
 
 Ltac invq H := injection H; clear H; intros; subst.
 
+(* list-level invariant: the caps bound the members, and the Flatten cache
+   (if any) is the members sorted by nonce *)
 Definition capok (l : txlist) : Prop :=
-  forall t, In t (litems l) -> t_cost t <= costcap l /\ t_gas t <= gascap l.
+  (forall t, In t (litems l) -> t_cost t <= costcap l /\ t_gas t <= gascap l) /\ ccok (txs l).
 
 Definition CAPS (p : pool) : Prop :=
   (forall a l, aget (pending p) a = Some l -> capok l) /\
   (forall a l, aget (queue p) a = Some l -> capok l).
 
 Lemma capok_new s : capok (new_list s).
-Proof. intros t []. Qed.
+Proof. split; [intros t []|exact I]. Qed.
 
 Lemma capok_add l t bump ins old l' : l_add l t bump = (ins, old, l') -> capok l -> capok l'.
 Proof.
   unfold l_add. match goal with |- (if ?c then _ else _) = _ -> _ => destruct c end; intros H C; invq H; auto.
+  destruct C as [C _]. split; [|exact I].
   intros x. unfold litems. cbn [txs costcap gascap]. rewrite sm_put_in. intros [->|[Hx _]].
   - destruct (N.ltb (costcap l) (t_cost t)) eqn:E1; destruct (N.ltb (gascap l) (t_gas t)) eqn:E2; lia.
   - destruct (C x Hx). destruct (N.ltb (costcap l) (t_cost t)) eqn:E1; destruct (N.ltb (gascap l) (t_gas t)) eqn:E2; lia.
@@ -27,57 +30,74 @@ Qed.
 (* any operation that keeps the caps and only drops members *)
 Lemma capok_sub l l' :
   costcap l' = costcap l -> gascap l' = gascap l -> (forall x, In x (litems l') -> In x (litems l)) ->
-  capok l -> capok l'.
-Proof. intros E1 E2 S C x Hx. rewrite E1, E2. apply C. auto. Qed.
+  ccok (txs l') -> capok l -> capok l'.
+Proof. intros E1 E2 S K [C _]. split; auto. intros x Hx. rewrite E1, E2. apply C. auto. Qed.
 
 Lemma capok_forward l th rm l' : l_forward l th = (rm, l') -> capok l -> capok l'.
 Proof.
   intros F. pose proof (l_forward_spec _ _ _ _ F) as (_ & _ & K). unfold l_forward in F.
-  destruct (sm_forward (txs l) th). intro C. invq F. apply (capok_sub l); auto. intros x Hx. apply K in Hx. tauto.
+  destruct (sm_forward (txs l) th) eqn:E. intro C. invq F. apply (capok_sub l); auto.
+  - intros x Hx. apply K in Hx. tauto.
+  - cbn. eapply cc_forward; eauto. apply C.
 Qed.
 Lemma capok_cap l th d l' : uniq (litems l) -> l_cap l th = (d, l') -> capok l -> capok l'.
 Proof.
   intros U F. pose proof (l_cap_spec _ _ _ _ U F) as (_ & K & _). unfold l_cap in F.
-  destruct (sm_cap (txs l) th). intro C. invq F. apply (capok_sub l); auto. intros x Hx. apply K. auto.
+  destruct (sm_cap (txs l) th) eqn:E. intro C. invq F. apply (capok_sub l); auto.
+  - intros x Hx. apply K. auto.
+  - cbn. eapply cc_cap; eauto. apply C.
 Qed.
 Lemma capok_ready l s r l' : uniq (litems l) -> l_ready l s = (r, l') -> capok l -> capok l'.
 Proof.
   intros U F. pose proof (l_ready_spec _ _ _ _ U F) as (_ & K & _). unfold l_ready in F.
-  destruct (sm_ready (txs l) s). intro C. invq F. apply (capok_sub l); auto. intros x Hx. apply K. auto.
+  destruct (sm_ready (txs l) s) eqn:E. intro C. invq F. apply (capok_sub l); auto.
+  - intros x Hx. apply K. auto.
+  - cbn. eapply cc_ready; eauto. apply C.
 Qed.
 Lemma capok_remove l t ok inv l' : l_remove l t = (ok, inv, l') -> capok l -> capok l'.
 Proof.
   intros F C. pose proof (l_remove_spec _ _ _ _ _ F) as (_ & Kf & Kt). unfold l_remove in F.
-  destruct (sm_remove (txs l) (t_nonce t)) as [ok0 m1]. destruct ok0; cbn [negb] in F.
-  - destruct (strict l).
-    + destruct (sm_filter m1 _) as [i m2]. invq F. apply (capok_sub l); auto.
-      intros x Hx. destruct (Kt eq_refl) as (_ & M & _). assert (In x (litems l) /\ t_nonce x <> t_nonce t) by (apply M; auto). tauto.
+  destruct (sm_remove (txs l) (t_nonce t)) as [ok0 m1] eqn:E. destruct ok0; cbn [negb] in F.
+  - assert (C1 : ccok m1) by (eapply cc_remove; eauto; apply C).
+    destruct (strict l).
+    + destruct (sm_filter m1 _) as [i m2] eqn:E2. invq F. apply (capok_sub l); auto.
+      * intros x Hx. destruct (Kt eq_refl) as (_ & M & _). assert (In x (litems l) /\ t_nonce x <> t_nonce t) by (apply M; auto). tauto.
+      * cbn. eapply cc_filter; eauto.
     + invq F. apply (capok_sub l); auto.
       intros x Hx. destruct (Kt eq_refl) as (_ & M & _). assert (In x (litems l) /\ t_nonce x <> t_nonce t) by (apply M; auto). tauto.
   - invq F. auto.
 Qed.
-Lemma capok_flatten l r l' : l_flatten l = (r, l') -> capok l -> capok l'.
+Lemma capok_flatten l r l' : l_flatten l = (r, l') -> capok l -> capok l' /\ r = sort_nonce (litems l).
 Proof.
-  intros F. destruct (l_flatten_items _ _ _ F) as (I & _ & E1 & E2). apply (capok_sub l); auto. rewrite I. auto.
+  intros F C. destruct (l_flatten_items _ _ _ F) as (I & _ & E1 & E2). unfold l_flatten in F.
+  destruct (sm_flatten (txs l)) eqn:E. invq F. destruct (cc_flatten _ _ _ E (proj2 C)) as [K1 K2].
+  split; auto. apply (capok_sub l); auto. rewrite I. auto.
 Qed.
 Lemma capok_filter l c g rm inv l' : l_filter l c g = (rm, inv, l') -> capok l -> capok l'.
 Proof.
   intros F C. pose proof (l_filter_spec _ _ _ _ _ _ F) as (_ & _ & _ & M & _ & _ & _ & _ & Sc & Lc).
   destruct (N.leb (costcap l) c && N.leb (gascap l) g) eqn:E.
   - destruct Sc as (_ & _ & ->); auto. lia.
-  - destruct Lc as (E1 & E2 & R); [lia|]. intros x Hx. rewrite E1, E2.
-    assert (Hl : In x (litems l)) by (apply M; auto).
-    destruct (too_costly c g x) eqn:T.
-    + exfalso. assert (In x rm) by (apply R; auto).
-      pose proof (l_filter_spec _ _ _ _ _ _ F) as (_ & _ & _ & _ & D & _). apply D in Hx. tauto.
-    + unfold too_costly in T. lia.
+  - destruct Lc as (E1 & E2 & R); [lia|]. split.
+    + intros x Hx. rewrite E1, E2.
+      assert (Hl : In x (litems l)) by (apply M; auto).
+      destruct (too_costly c g x) eqn:T.
+      * exfalso. assert (In x rm) by (apply R; auto).
+        pose proof (l_filter_spec _ _ _ _ _ _ F) as (_ & _ & _ & _ & D & _). apply D in Hx. tauto.
+      * unfold too_costly in T. lia.
+    + unfold l_filter in F. rewrite E in F.
+      destruct (sm_filter (txs l) _) as [removed m1] eqn:F1.
+      assert (C1 : ccok m1) by (eapply cc_filter; eauto; apply C).
+      destruct removed as [|t0 rest]; [injection F as <- <- <-; auto|].
+      destruct (strict l); [|injection F as <- <- <-; auto].
+      destruct (sm_filter m1 _) as [invalids m2] eqn:F2. injection F as <- <- <-. cbn. eapply cc_filter; eauto.
 Qed.
 (* and it really cleans: what stays is within the limits *)
 Lemma filter_cleans l c g rm inv l' :
   l_filter l c g = (rm, inv, l') -> capok l ->
   forall x, In x (litems l') \/ In x inv -> t_cost x <= c /\ t_gas x <= g.
 Proof.
-  intros F C x Hx. pose proof (l_filter_spec _ _ _ _ _ _ F) as (_ & _ & Hi & M & D & _ & _ & _ & Sc & Lc).
+  intros F [C _] x Hx. pose proof (l_filter_spec _ _ _ _ _ _ F) as (_ & _ & Hi & M & D & _ & _ & _ & Sc & Lc).
   destruct (N.leb (costcap l) c && N.leb (gascap l) g) eqn:E.
   - destruct Sc as (_ & -> & ->); [lia|]. destruct Hx as [Hx|[]]. destruct (C x Hx). lia.
   - destruct Lc as (_ & _ & R); [lia|]. destruct Hx as [Hx|Hx].
@@ -277,7 +297,8 @@ Proof.
   { destruct (negb (l_empty l3)); [destruct (gapfix (cfg p3))|].
     - cbn zeta in C2'. destruct (sm_filter (txs l3) _) as [inv0 m] eqn:SF. invq C2'.
       pose proof (sm_filter_spec _ _ _ _ SF) as [_ S2].
-      apply (capok_sub l3); auto. unfold litems. cbn [txs]. intros x Hx. apply S2 in Hx. tauto.
+      apply (capok_sub l3); auto; [unfold litems; cbn [txs]; intros x Hx; apply S2 in Hx; tauto|].
+      cbn [txs]. eapply cc_filter; eauto. apply Cl3.
     - cbn zeta in C2'. invq C2'. auto.
     - invq C2'. auto. }
   assert (C3' : CAPS (if seen then set_gap_seen p3 else p3)) by (destruct seen; auto; apply (caps_ext p3); auto).
@@ -356,12 +377,12 @@ Proof. intros [W C]. split; [apply ws_remove_txs|apply caps_remove_txs]; auto. Q
 Lemma sc_flatten_q p a l flat l' : SC p -> aget (queue p) a = Some l -> l_flatten l = (flat, l') -> SC (put_q p a l').
 Proof.
   intros [W C] G F. split; [eapply ws_flatten_q; eauto|]. apply caps_put_q; auto.
-  eapply capok_flatten; eauto. eapply (proj2 C); eauto.
+  eapply (proj1 (capok_flatten _ _ _ F _)). Unshelve. eapply (proj2 C); eauto.
 Qed.
 Lemma sc_flatten_p p a l flat l' : SC p -> aget (pending p) a = Some l -> l_flatten l = (flat, l') -> SC (put_p p a l').
 Proof.
   intros [W C] G F. split; [eapply ws_flatten_p; eauto|]. apply caps_put_p; auto.
-  eapply capok_flatten; eauto. eapply (proj1 C); eauto.
+  eapply (proj1 (capok_flatten _ _ _ F _)). Unshelve. eapply (proj1 C); eauto.
 Qed.
 
 Lemma sc_ext p p' : pending p' = pending p -> queue p' = queue p -> all p' = all p -> SC p -> SC p'.
